@@ -486,8 +486,8 @@ class Sym:
                 if fn and short in ("call_once", "call_mut", "call") and ("ops::FnOnce::" in name or "ops::FnMut::" in name or "ops::Fn::" in name or "ops::function::Fn" in name) and len(args) == 2 and depth < self.inline_depth + 1:
                     # calling a closure value that is known on this path (a helper applying its `impl FnOnce` parameter)
                     c0 = args[0]
-                    while c0[0] == "ref":
-                        c0 = c0[1]
+                    while c0[0] == "ref" or c0[0] == "havoc":      # a FnMut closure after an earlier call: same code
+                        c0 = c0[1] if c0[0] == "ref" else c0[3]
                     cal = self._callable(c0) if (c0[0] == "agg" and c0[1] == "closure") else None
                     tup = args[1]
                     if cal is not None and cal[0] == "closure" and tup[0] == "agg" and tup[1] == "tuple" and cal[1].path != fnpath:
@@ -874,6 +874,16 @@ def ckey(e):
 
 def derived_decision(e, c):
     """is_some/is_none/is_ok/is_err(x) decided  =>  the same fact about discriminant(x)."""
+    if e[0] in ("pure", "call") and e[1].split("::")[-1] in ("is_ready", "is_pending") and "Poll" in e[1] and len(e[2]) == 1:
+        t = True if (c == ("notin", (0,)) or c == ("eq", 1)) else (False if c == ("eq", 0) else None)
+        if t is None:
+            return None
+        x = e[2][0]
+        while isinstance(x, tuple) and x and x[0] == "ref":
+            x = x[1]
+        # Poll: Ready = 0, Pending = 1
+        ready = t if e[1].split("::")[-1] == "is_ready" else (not t)
+        return (("discr", x, None), ("eq", 0 if ready else 1))
     if e[0] == "pure" and e[1].split("::")[-1] in ("is_some", "is_none", "is_ok", "is_err") and len(e[2]) == 1:
         t = True if (c == ("notin", (0,)) or c == ("eq", 1)) else (False if c == ("eq", 0) else None)
         if t is None:
